@@ -423,6 +423,9 @@ def translate_module(rel, status):
                 if isinstance(s, ast.FunctionDef):
                     if "abstractmethod" in decorators(s):
                         continue
+                    only = ONLY.get(rel, {}).get(node.name)
+                    if only is not None and s.name not in only:
+                        continue
                     suffix = "_setter" if "setter" in decorators(s) else ""
                     dn = "%s_%s%s" % (node.name, s.name.replace("__", "D"), suffix)
                     out.append("Definition %s : func := %s." % (dn, func(s, status, "%s:%s.%s%s" % (rel, node.name, s.name, suffix))))
@@ -513,8 +516,11 @@ def translate_module(rel, status):
     return mod, txt
 
 
+# modules of which only some methods are inside the sequential subset (the rest uses threads / queues)
+ONLY = {"comm.py": {"CommHandler": ["_read_hdr", "_read_frame"]}}
+
 MODULES = ["proto/iframe.py", "proto/serialframe.py", "dev.py", "proto/iparse.py", "proto/parse.py",
-           "proto/iparserecv.py", "proto/parserecv.py", "intf/iintf.py", "$prelude"]
+           "proto/iparserecv.py", "proto/parserecv.py", "intf/iintf.py", "comm.py", "$prelude"]
 
 
 def crc_table():
